@@ -56,6 +56,11 @@ Definition ty_of_tag (tag : bytes) : option ty :=
   else if is "newtype"%string then Some (st "SNew" [("n", TNewtype (S "SNewtype") i64)]%string)
   else if is "vecinner"%string then Some (st "SVecInner" [("v", TSeq t_inner)]%string)
   else if is "dt"%string then Some (st "SDt" [("d", TDatetime KDatetime)]%string)
+  (* types whose ROOT is not a struct: Deserializer::deserialize_newtype_struct / _option / _any (de/mod.rs) *)
+  else if is "rootnew"%string then Some (TNewtype (S "RootNew") (st "SInt" [("a", i64)]%string))
+  else if is "rootnewnested"%string then Some (TNewtype (S "RootNewNested") t_outer)
+  else if is "rootopt"%string then Some (TOpt (st "SInt" [("a", i64)]%string))
+  else if is "rootmap"%string then Some (TMap TStr i64)
   (* the additional types of `mod ty_extra` (command deerr2) *)
   else if is "vdate"%string then Some (st "VD" [("v", TSeq (TDatetime KDate))]%string)
   else if is "sdate"%string then Some (st "SD" [("d", TDatetime KDate)]%string)
